@@ -28,6 +28,22 @@ type Flow[S comparable] struct {
 	// MaxStates bounds the state set per block (safety net); 0 = 4096.
 	MaxStates int
 	Overflow  bool
+	// Inline, when set, names the callee whose body stands for a call that
+	// forms a whole statement (`x.helper(..)`, `return x.helper(..)`,
+	// `a, err := x.helper(..)`): the engine then walks the callee's graph with
+	// the same callbacks instead of (tail call, expression statement) or
+	// before (assignment) handing the statement to Node. In a tail call the
+	// callee's return statements are the caller's; otherwise they are given to
+	// CalleeReturn (if set) and the path continues after the call. Nesting is
+	// bounded by MaxInline (0 = 3); recursion is cut.
+	Inline       func(call *ast.CallExpr) *FuncInfo
+	CalleeReturn func(callee *FuncInfo, ret *ast.ReturnStmt, s S) S
+	// Bind is told the parameter/argument pairing on entry to an inlined callee.
+	Bind      func(callee *FuncInfo, call *ast.CallExpr, s S) S
+	MaxInline int
+	// Inlined records the callees that were walked (for reports).
+	Inlined map[*FuncInfo]bool
+	stack   []*FuncInfo
 }
 
 // condInfo describes how a two-successor block branches.
@@ -39,7 +55,7 @@ type condInfo struct {
 	none bool // range / select: both outcomes, no condition
 }
 
-func (fl *Flow[S]) condOf(b *cfg.Block) condInfo {
+func (fl *Flow[S]) condOf(fn *FuncInfo, b *cfg.Block) condInfo {
 	if len(b.Succs) != 2 {
 		return condInfo{none: true}
 	}
@@ -57,9 +73,9 @@ func (fl *Flow[S]) condOf(b *cfg.Block) condInfo {
 			break
 		}
 		// find the enclosing switch
-		par := fl.Fn.prog.Parent(fl.Fn.File, cc)
+		par := fn.prog.Parent(fn.File, cc)
 		if par != nil {
-			par = fl.Fn.prog.Parent(fl.Fn.File, par) // BlockStmt -> Switch
+			par = fn.prog.Parent(fn.File, par) // BlockStmt -> Switch
 		}
 		switch sw := par.(type) {
 		case *ast.SwitchStmt:
@@ -115,19 +131,79 @@ func (fl *Flow[S]) EvalCond(e ast.Expr, s S) (t, f []S) {
 // Run computes the fixpoint. The transfer callbacks are invoked repeatedly;
 // since state sets only grow, anything they observe is part of the fixpoint.
 func (fl *Flow[S]) Run(entry S) {
-	g := fl.Fn.CFG()
+	fl.stack = []*FuncInfo{fl.Fn}
+	fl.runGraph(fl.Fn, []S{entry}, true)
+}
+
+// inlineTarget classifies a statement as a whole-statement call of an
+// inlinable callee. mode: 1 expression statement, 2 tail call, 3 assignment.
+func (fl *Flow[S]) inlineTarget(n ast.Node) (callee *FuncInfo, call *ast.CallExpr, mode int) {
+	if fl.Inline == nil {
+		return nil, nil, 0
+	}
+	switch x := n.(type) {
+	case *ast.ExprStmt:
+		call, _ = ast.Unparen(x.X).(*ast.CallExpr)
+		mode = 1
+	case *ast.ReturnStmt:
+		if len(x.Results) == 1 {
+			call, _ = ast.Unparen(x.Results[0]).(*ast.CallExpr)
+		}
+		mode = 2
+	case *ast.AssignStmt:
+		if len(x.Rhs) == 1 {
+			call, _ = ast.Unparen(x.Rhs[0]).(*ast.CallExpr)
+		}
+		mode = 3
+	}
+	if call == nil {
+		return nil, nil, 0
+	}
+	callee = fl.Inline(call)
+	if callee == nil || callee.Body() == nil || callee.CFG() == nil {
+		return nil, nil, 0
+	}
+	max := fl.MaxInline
+	if max == 0 {
+		max = 3
+	}
+	if len(fl.stack) > max {
+		return nil, nil, 0
+	}
+	for _, f := range fl.stack {
+		if f == callee {
+			return nil, nil, 0
+		}
+	}
+	return callee, call, mode
+}
+
+// runGraph walks fn's graph from the entry states. With top (or tail) set,
+// return statements go to Node and end the path; otherwise the states at the
+// function's exits are returned.
+func (fl *Flow[S]) runGraph(fn *FuncInfo, entry []S, top bool) (exits []S) {
+	g := fn.CFG()
 	if g == nil {
-		return
+		return entry
 	}
 	max := fl.MaxStates
 	if max == 0 {
 		max = 4096
 	}
+	exitSeen := map[S]bool{}
+	addExit := func(s S) {
+		if !exitSeen[s] {
+			exitSeen[s] = true
+			exits = append(exits, s)
+		}
+	}
 	in := make([]map[S]bool, len(g.Blocks))
 	for i := range in {
 		in[i] = map[S]bool{}
 	}
-	in[0][entry] = true
+	for _, e := range entry {
+		in[0][e] = true
+	}
 	work := []int32{0}
 	queued := map[int32]bool{0: true}
 	done := make([]map[S]bool, len(g.Blocks)) // states already propagated
@@ -149,7 +225,7 @@ func (fl *Flow[S]) Run(entry S) {
 		if len(pending) == 0 {
 			continue
 		}
-		ci := fl.condOf(b)
+		ci := fl.condOf(fn, b)
 		nodes := b.Nodes
 		if ci.cond != nil {
 			nodes = nodes[:len(nodes)-1]
@@ -158,12 +234,66 @@ func (fl *Flow[S]) Run(entry S) {
 		for _, n := range nodes {
 			var next []S
 			seen := map[S]bool{}
+			add := func(o S) {
+				if !seen[o] {
+					seen[o] = true
+					next = append(next, o)
+				}
+			}
+			if callee, call, mode := fl.inlineTarget(n); callee != nil {
+				if fl.Inlined == nil {
+					fl.Inlined = map[*FuncInfo]bool{}
+				}
+				fl.Inlined[callee] = true
+				ent := cur
+				if fl.Bind != nil {
+					ent = nil
+					for _, s := range cur {
+						ent = append(ent, fl.Bind(callee, call, s))
+					}
+				}
+				fl.stack = append(fl.stack, callee)
+				outs := fl.runGraph(callee, ent, mode == 2 && top)
+				fl.stack = fl.stack[:len(fl.stack)-1]
+				switch mode {
+				case 1:
+					for _, o := range outs {
+						add(o)
+					}
+				case 2:
+					if top {
+						// the callee's returns were the caller's returns
+					} else {
+						for _, o := range outs {
+							addExit(o)
+						}
+					}
+				case 3:
+					for _, s := range outs {
+						for _, o := range fl.Node(n, s) {
+							add(o)
+						}
+					}
+				}
+				cur = next
+				if len(cur) == 0 {
+					break
+				}
+				continue
+			}
+			if ret, isRet := n.(*ast.ReturnStmt); isRet && !top {
+				for _, s := range cur {
+					if fl.CalleeReturn != nil {
+						s = fl.CalleeReturn(fn, ret, s)
+					}
+					addExit(s)
+				}
+				cur = nil
+				break
+			}
 			for _, s := range cur {
 				for _, o := range fl.Node(n, s) {
-					if !seen[o] {
-						seen[o] = true
-						next = append(next, o)
-					}
+					add(o)
 				}
 			}
 			cur = next
@@ -193,6 +323,12 @@ func (fl *Flow[S]) Run(entry S) {
 		}
 		switch len(b.Succs) {
 		case 0:
+			// falling off the end of the function (no return statement)
+			if !top {
+				for _, s := range cur {
+					addExit(s)
+				}
+			}
 		case 1:
 			push(b.Succs[0], cur)
 		case 2:
@@ -228,6 +364,7 @@ func (fl *Flow[S]) Run(entry S) {
 			push(b.Succs[1], fs)
 		}
 	}
+	return exits
 }
 
 // ---- generic AST helpers -------------------------------------------------
@@ -317,3 +454,107 @@ func isErrorType(t types.Type) bool { return t != nil && types.Identical(t, erro
 
 // exprString is a compact rendering used in messages.
 func exprString(e ast.Expr) string { return types.ExprString(e) }
+
+// InlineHelpers is the default Inline policy for a subject function: an
+// unexported method declared in the same file on the same receiver type as the
+// subject (a private phase or helper of it), except the named ones. Such a
+// call is what "extract method" produces; walking its body keeps a
+// path rule's verdict independent of how the subject is split up.
+func (p *Program) InlineHelpers(subject *FuncInfo, exclude ...string) func(call *ast.CallExpr) *FuncInfo {
+	recvName := func(fn *types.Func) string {
+		sig, _ := fn.Type().(*types.Signature)
+		if sig == nil || sig.Recv() == nil {
+			return ""
+		}
+		t := sig.Recv().Type()
+		if pt, ok := t.(*types.Pointer); ok {
+			t = pt.Elem()
+		}
+		if nt, ok := t.(*types.Named); ok {
+			return nt.Obj().Name()
+		}
+		return ""
+	}
+	root := subject
+	if d := p.enclosingDecl(subject); d != nil {
+		root = d
+	}
+	var want string
+	if root.Obj != nil {
+		want = recvName(root.Obj)
+	}
+	ex := map[string]bool{}
+	for _, e := range exclude {
+		ex[e] = true
+	}
+	return func(call *ast.CallExpr) *FuncInfo {
+		cf := Callee(subject.Info(), call)
+		if cf == nil || want == "" || ast.IsExported(cf.Name()) || ex[cf.Name()] || recvName(cf) != want {
+			return nil
+		}
+		g := p.FuncOf(cf)
+		if g == nil || g.Decl == nil || g.Body() == nil || g.File != root.File {
+			return nil
+		}
+		return g
+	}
+}
+
+// HelperClosure lists the subject followed by the helpers InlineHelpers would
+// walk, transitively (depth 3) — for rules that look for a statement form
+// anywhere in the subject's own code.
+func (p *Program) HelperClosure(subject *FuncInfo, exclude ...string) []*FuncInfo {
+	inl := p.InlineHelpers(subject, exclude...)
+	out := []*FuncInfo{subject}
+	seen := map[*FuncInfo]bool{subject: true}
+	for depth, frontier := 0, []*FuncInfo{subject}; depth < 3 && len(frontier) > 0; depth++ {
+		var next []*FuncInfo
+		for _, f := range frontier {
+			InspectNoLit(f.Body(), func(n ast.Node) bool {
+				if call, ok := n.(*ast.CallExpr); ok {
+					if g := inl(call); g != nil && !seen[g] {
+						seen[g] = true
+						out = append(out, g)
+						next = append(next, g)
+					}
+				}
+				return true
+			})
+		}
+		frontier = next
+	}
+	return out
+}
+
+// CalleeClosure lists f followed by the unexported functions and methods of
+// the same package that it calls statically, transitively up to depth — the
+// code a maintainer may have split a function into. For rules that look for a
+// statement form anywhere in a function's own logic.
+func (p *Program) CalleeClosure(f *FuncInfo, depth int) []*FuncInfo {
+	out := []*FuncInfo{f}
+	seen := map[*FuncInfo]bool{f: true}
+	frontier := []*FuncInfo{f}
+	for d := 0; d < depth && len(frontier) > 0; d++ {
+		var next []*FuncInfo
+		for _, g := range frontier {
+			InspectNoLit(g.Body(), func(n ast.Node) bool {
+				call, ok := n.(*ast.CallExpr)
+				if !ok {
+					return true
+				}
+				cf := Callee(g.Info(), call)
+				if cf == nil || ast.IsExported(cf.Name()) || cf.Pkg() == nil || f.Pkg == nil || cf.Pkg() != f.Pkg.Types {
+					return true
+				}
+				if h := p.FuncOf(cf); h != nil && h.Body() != nil && !seen[h] {
+					seen[h] = true
+					out = append(out, h)
+					next = append(next, h)
+				}
+				return true
+			})
+		}
+		frontier = next
+	}
+	return out
+}
